@@ -477,7 +477,8 @@ class TaggedSeries(object):
       ])
 
     # metric isn't tagged, just replace dots with the separator and trim any leading separator
-    return metric.replace('.', sep).lstrip(sep)
+    # (and any leading path separator, so that the result is always a relative path)
+    return metric.replace('.', sep).lstrip(sep + os.sep)
 
   @staticmethod
   def decode(path, sep='.'):
